@@ -1,4 +1,5 @@
 import CffiVerif.Proofs.Search
+import CffiVerif.Proofs.RealizeName
 
 /-!
 C25 — every declared name is found by the runtime lookup of generated tables.
@@ -165,5 +166,73 @@ example : ∀ x ∈ exTable.toList, NoNul x := by unfold NoNul exTable; decide
 example : searchSorted exTable [97, 98, 99] = some 1 :=
   search_complete exTable _ (by unfold NoNul exTable; decide) (by unfold StrictSorted exTable; decide) 1
     (by unfold exTable; decide) (by unfold exTable; decide)
+
+/-! ### The name under which a struct/union entry is looked up again
+
+`do_realize_lazy_struct` recovers the table tag from the realized ctype's name with `_unrealize_name`
+and searches the `struct_unions` table for it; the declared entry is found only if that mapping inverts
+`_realize_name` for every tag the generator can emit. -/
+section names
+open CffiVerif.RealizeName
+
+/-- `"struct xyz"` maps back to the tag `xyz`, whatever `xyz` is. -/
+theorem unrealize_struct (s : RealizeName.CStr) : unrealizeName (structPfx ++ s) = s := by
+  unfold unrealizeName
+  rw [gen_cases]
+  simp only [unrealizeFrom]
+  rw [if_pos (strncmpN_self_prefix structPfx s (by decide))]
+  simp
+
+/-- `"union xyz"` maps back to the tag `xyz`. -/
+theorem unrealize_union (s : RealizeName.CStr) : unrealizeName (unionPfx ++ s) = s := by
+  unfold unrealizeName
+  rw [gen_cases]
+  simp only [unrealizeFrom]
+  have hd : strncmpN (unionPfx ++ s) structPfx structPfx.length ≠ 0 :=
+    first_differs [116, 114, 117, 99, 116, 32] ([110, 105, 111, 110, 32] ++ s) 6 117 115 (by decide)
+  rw [if_neg hd]
+  rw [if_pos (strncmpN_self_prefix unionPfx s (by decide))]
+  simp
+
+/-- A name without a space (every typedef name; in particular one that merely *starts with* the letters
+`struct`, `union` or `enum`) maps back to the `$`-tag of the typedef-named anonymous aggregate. -/
+theorem unrealize_typedef_name (s : RealizeName.CStr) (h : NoSpace s) : unrealizeName s = 36 :: s := by
+  unfold unrealizeName
+  rw [gen_cases]
+  have no : ∀ lit : RealizeName.CStr, (∀ b ∈ lit, b ≠ 0) → 32 ∈ lit → strncmpN s lit lit.length ≠ 0 := by
+    intro lit hl hm hz
+    have hp := prefix_of_strncmpN_zero lit s hl hz
+    exact h 32 (hp.subset hm) rfl
+  simp only [unrealizeFrom]
+  rw [if_neg (no structPfx (by decide) (by decide)), if_neg (no unionPfx (by decide) (by decide)),
+    if_neg (no enumPfx (by decide) (by decide)), gen_else]
+  rfl
+
+/-- Round trip for every tag of the `struct_unions` table: a plain tag, `$xyz` (typedef-named anonymous),
+`$1` / `$$…` (numbered anonymous), under either keyword. -/
+theorem unrealize_realize (pfx tag : RealizeName.CStr) (hp : pfx = structPfx ∨ pfx = unionPfx)
+    (h : NoSpace tag) : unrealizeName (realizeName pfx tag) = tag := by
+  unfold realizeName
+  split
+  · rename_i hc
+    have h0 := ((gen_isTypedefNamed _ _).mp hc).1
+    cases tag with
+    | nil => simp [charAt] at h0
+    | cons a as =>
+      have ha : a = 36 := UInt8.toNat_inj.mp (by simpa using h0)
+      subst ha
+      rw [gen_typedefSkip]
+      simpa using unrealize_typedef_name as (fun b hb => h b (by simp [hb]))
+  · rcases hp with rfl | rfl
+    · exact unrealize_struct tag
+    · exact unrealize_union tag
+
+-- Non-vacuity and the shapes that matter: `typedef struct {…} struct_pt;` next to `struct pt {…};`
+example : realizeName structPfx (36 :: [115, 116, 114, 117, 99, 116, 95, 112, 116]) =
+    [115, 116, 114, 117, 99, 116, 95, 112, 116] := by decide
+example : unrealizeName [115, 116, 114, 117, 99, 116, 95, 112, 116] =
+    36 :: [115, 116, 114, 117, 99, 116, 95, 112, 116] := by decide
+example : NoSpace [115, 116, 114, 117, 99, 116, 95, 112, 116] := by unfold NoSpace; decide
+end names
 
 end CffiVerif.C25
